@@ -284,18 +284,21 @@ PROPS['C23'] = {
 }
 PROPS['C04'] = {
     'units': ['print', 'solver'],
-    'functions': ['built_in_print.rs::format_for_print_pred', 'built_in_print.rs::next_solution_print'],
-    'oracles': {'*': 'c04_format', '#trace': 'c04_prog'},
-    'bounded': [('c04_prog', 'the trace sentence itself, BOUNDED: the text written during the whole search of 2000 random stratified programs per seed (print / nl in rule bodies with and / or groups, not, fail, comparisons; no cut) '
+    'functions': ['built_in_print.rs::format_for_print_pred', 'built_in_print.rs::next_solution_print', 'built_in_print_list.rs::next_solution_print_list'],
+    'oracles': {'*': 'c04_format', '#trace': 'c04_prog', 'built_in_print_list.rs::next_solution_print_list': 'c04_print_list'},
+    'bounded': [('c04_print_list', 'supplementary to the proof, and the source of witnesses: print_list on 13 argument lists under 8 sets of bindings (atoms, numbers, variables bound to atoms / lists / through chains, lists with bound tail variables, nested, '
+                                   'the same variable twice, no argument) against the text the statement gives - one line per argument in order, a list as its elements, ",\\n" before a list that is not the first argument; lists with an unbound variable inside are skipped (observation, 8.35)'),
+                ('c04_prog', 'the trace sentence itself, BOUNDED: the text written during the whole search of 2000 random stratified programs per seed (print / nl in rule bodies with and / or groups, not, fail, comparisons; no cut) '
                              'against the text the reference interpreter (depth-first, left to right, clause order) writes when it executes the same goals'),
                 ('c04_format', 'supplementary to the proof: format_for_print_pred on 269 string vectors (markers at the start / end / doubled, `%` alone, non-ASCII, more and fewer arguments than markers) against a formatter written from the statement')],
     'not_covered': [
         'PARTIAL.  PROVED (Verus, verbatim bodies): format_for_print_pred returns the first string with its `%s` markers replaced left to right by the later strings, left-over strings following one another (concatenation when there is no marker), left-over markers vanishing (#format, relative to the assumed cutting specification of str::split); '
         'next_solution_print shows each argument with its bound value (the end of its binding chain, or the argument itself when unbound) and writes that text as ONE output event when the goal has arguments (#print_once, #print_text); '
-        'a print / print_list / nl node writes at most once per request, only on its first request, and never again afterwards (#once, #one_output on next_solution_bip; done nodes write nothing: C05)',
+        'next_solution_print_list writes one line per argument, in argument order and each once - a variable shown as the end of its binding chain, a list as the text format_slist gives for it, preceded by ",\\n" after the first argument - and nothing when there is no argument (#lines_in_order, #lines_inv, #one_event_per_line); '
+        'a print / print_list / nl node writes only on its first request and never again afterwards; print and nl write at most one text per request (#once, #one_output on next_solution_bip; done nodes write nothing: C05)',
         'NOT PROVED, bounded only: "exactly what the reference depth-first search writes ... in execution order" - the output trace of a whole search is a whole-history statement (as C01); c04_prog compares it with a reference interpreter on random programs, labelled bounded',
-        'print_list (format_slist and friends, 150 lines of string building) is not under contract; next_solution_print_list has the assumed contract "at most one output event, no node touched"',
-        'next_solution_print assumes acyclic bindings (C08: the invariant unify keeps) - the solver unit does not carry that invariant to the call site; Display of a term is uninterpreted (disp)',
+        'format_slist (the text of one list: 60 lines of string building that follow tail variables through the bindings) is not under contract: its result is an uninterpreted function of the list and the bindings (ASSUMED)',
+        'next_solution_print and next_solution_print_list assume acyclic bindings (C08: the invariant unify keeps) - the solver unit does not carry that invariant to the call site; Display of a term is uninterpreted (disp)',
         'observation: a cut inside a parenthesised group also stops backtracking into the goals to its right inside the group once control has left the group (documented: "disabled on the cut and all its ancestors"); '
         'the textbook search would retry them, so their output can differ - the trace oracle therefore generates programs without cut',
     ],
